@@ -331,6 +331,10 @@ func mapField(
 		if nextSource.Pointer {
 			innerStmt = append(innerStmt, jen.Id(tempName).Op("=").Add(returnID.Code))
 		} else {
+			if ctx.Conf.SkipCopySameType {
+				// the pointer may be passed through as it is: it must not point into the source
+				returnID = xtype.OtherID(returnID.Code)
+			}
 			pstmt, pointerID := returnID.Pointer(nextSource, ctx.Name)
 			innerStmt = append(innerStmt, pstmt...)
 			innerStmt = append(innerStmt, jen.Id(tempName).Op("=").Add(pointerID.Code))
